@@ -383,6 +383,18 @@ where
         if !c.against("NonContiguousLookup::fast identity labels (quantile walk)", table_via_decoder::<_, P>(&m, n + 4)) {
             return;
         }
+        // ... and the lookup model obtained by converting the searched non-contiguous decoder
+        if let Ok(nd) = NonContiguousCategoricalDecoderModel::<usize, Pr, Vec<(Pr, usize)>, P>::from_symbols_and_floating_point_probabilities_fast(0..n, &v, None) {
+            if !c.against("non-contiguous decoder.to_lookup_decoder_model (quantile walk)", table_via_decoder::<_, P>(&nd.to_lookup_decoder_model(), n + 4)) {
+                return;
+            }
+            if !c.against("non-contiguous decoder.as_view().to_lookup_decoder_model (quantile walk)", table_via_decoder::<_, P>(&nd.as_view().to_lookup_decoder_model(), n + 4)) {
+                return;
+            }
+            if !c.against("non-contiguous decoder.to_generic_lookup_decoder_model (quantile walk)", table_via_decoder::<_, P>(&nd.to_generic_lookup_decoder_model(), n + 4)) {
+                return;
+            }
+        }
         if !c.against("NonContiguousLookup.as_view (quantile walk)", table_via_decoder::<_, P>(&m.as_view(), n + 4)) {
             return;
         }
